@@ -322,6 +322,8 @@ def spec_rows(ctx, R, qname, rows):
             n += 1
             env["__index__"] = ctx.index
             env["__an__"] = ctx.an
+            extra = row.get("env") or {}
+            env.update(extra)       # bindings that are not part of the domain (hooks, fixed samples)
             watch = row.get("effects")
             reached = set()
             # an effect is named by its statement text, or by (predicate on the statement, expectation)
@@ -336,6 +338,8 @@ def spec_rows(ctx, R, qname, rows):
             out, both = outcomes(g, fi.node, env, ao, memo, watch=wspec, reached=reached)
             del env["__index__"]
             del env["__an__"]
+            for k_ in extra:
+                env.pop(k_, None)
             exp = bool(row["abort"](env))
             ends = {x for x, t in out}
             # must abort: no path at all may complete; must continue: no abort on a path decided by the row
@@ -584,6 +588,21 @@ def run_block(stmts, env):
                 done.append(norm(st))
         return "fall"
     return go(stmts), done
+
+
+def size_primitives(ctx):
+    """meaning of the package's integer-size helpers, for rows that evaluate code calling them; the
+    aliases they are defined by are checked first (a vanished alias is an analysis error)."""
+    mod = ctx.index.module("utils.cryptomath")
+    alias = {}
+    for st in mod.tree.body:
+        if isinstance(st, ast.Assign) and len(st.targets) == 1 and isinstance(st.targets[0], ast.Name) \
+                and isinstance(st.value, ast.Name):
+            alias[st.targets[0].id] = st.value.id
+    if alias.get("numBits") != "bit_length" or alias.get("numBytes") != "byte_length":
+        raise AnalysisError("numBits / numBytes are no longer the aliases of bit_length / byte_length")
+    return {"numBits": lambda n: int(n).bit_length(), "numBytes": lambda n: (int(n).bit_length() + 7) // 8,
+            "bit_length": lambda n: int(n).bit_length(), "byte_length": lambda n: (int(n).bit_length() + 7) // 8}
 
 
 def module_constants(ctx, modname, seed=None):
